@@ -1,447 +1,14 @@
-import PymocaVerif.Lemmas.GenEq
+import PymocaVerif.Lemmas.GenClosed
 /-!
 # Lemmas for C11: `get_function` — sequential substitution computes what imperative execution does
+
+A statement translates to a list of raw assignments `(x, term over the raw symbols)`.  `runRaw` evaluates
+such a list directly on a store; `applyAssigns_inv` shows that applying the list by sequential
+substitution (`applyAssigns`, what `get_function` does) keeps the symbolic values in step with `runRaw`;
+the per-statement lemmas show that `runRaw` of the generated list refines the execution of the statement.
 -/
 namespace PymocaVerif.Gen
 open PymocaVerif.ExprSem
-
-/-! ## Terms without `map` nodes (everything `gen` produces from an expression) -/
-
-mutual
-def noMap : CTerm K → Bool
-  | .const _ => true
-  | .ref _ _ => true
-  | .idx _ => true
-  | .op1 _ a => noMap a
-  | .op2 _ a b => noMap a && noMap b
-  | .ifElse c t f => noMap c && noMap t && noMap f
-  | .vcat ts => noMaps ts
-  | .map _ _ _ _ _ => false
-  | .call _ _ args => noMaps args
-def noMaps : CTerms K → Bool
-  | .nil => true
-  | .cons t ts => noMap t && noMaps ts
-end
-
-theorem noMaps_ofList : ∀ ts : List (CTerm K), noMaps (CTerms.ofList ts) = ts.all noMap
-  | [] => by simp [CTerms.ofList, noMaps]
-  | t :: ts => by simp [CTerms.ofList, noMaps, noMaps_ofList ts]
-
-theorem foldl_ifElse_noMap : ∀ (ps : List (CTerm K × CTerm K)) (acc : CTerm K), noMap acc = true →
-    (∀ p ∈ ps, noMap p.1 = true ∧ noMap p.2 = true) →
-    noMap (ps.foldl (fun acc p => CTerm.ifElse p.1 p.2 acc) acc) = true
-  | [], acc, h, _ => by simpa using h
-  | p :: ps, acc, h, hp => by
-    simp only [List.foldl_cons]
-    apply foldl_ifElse_noMap ps
-    · have := hp p (by simp)
-      simp [noMap, this.1, this.2, h]
-    · intro q hq; exact hp q (by simp [hq])
-
-theorem foldFromLast_noMap (cs es : List (CTerm K)) (hc : cs.all noMap = true) (he : es.all noMap = true) :
-    noMap (foldFromLast cs es) = true := by
-  unfold foldFromLast
-  cases hr : es.reverse with
-  | nil => simp [noMap, noMaps]
-  | cons last restRev =>
-    simp only
-    have hmem : ∀ x ∈ es.reverse, noMap x = true := by
-      intro x hx; exact (List.all_eq_true.mp he) x (by simpa using hx)
-    rw [hr] at hmem
-    apply foldl_ifElse_noMap
-    · exact hmem last (by simp)
-    · intro p hp
-      have := List.of_mem_zip hp
-      exact ⟨(List.all_eq_true.mp hc) p.1 (by simpa using this.1), hmem p.2 (by simp [this.2])⟩
-
-mutual
-theorem gen_noMap (P : Prims K) (o : Opts) (T : FTab K) : ∀ (e : MExpr K) (c : CTerm K),
-    gen P o T e = .ok c → noMap c = true
-  | .num q, c, h => by simp [gen] at h; subst h; rfl
-  | .ref n s, c, h => by simp [gen] at h; subst h; rfl
-  | .idx i, c, h => by simp [gen] at h; subst h; rfl
-  | .un op a, c, h => by
-    simp only [gen] at h
-    obtain ⟨ta, hta, hc⟩ := bind_ok.mp h
-    have ha := gen_noMap P o T a ta hta
-    cases op with
-    | neg => simp [genUn] at hc; subst hc; simpa [noMap] using ha
-    | pos => simp [genUn] at hc; subst hc; exact ha
-    | not => simp [genUn] at hc; subst hc; simp [noMap, ha]
-    | abs => simp [genUn] at hc; subst hc; simpa [noMap] using ha
-    | sum => simp [genUn] at hc; subst hc; simpa [noMap] using ha
-    | elem e =>
-      simp only [genUn] at hc
-      split at hc
-      · cases hc; simpa [noMap] using ha
-      · obtain ⟨fn, _, rfl⟩ := userCall_ok hc
-        simp [noMap, noMaps_ofList, ha]
-  | .bin op a b, c, h => by
-    simp only [gen] at h
-    obtain ⟨ta, hta, h2⟩ := bind_ok.mp h
-    obtain ⟨tb, htb, hc⟩ := bind_ok.mp h2
-    have ha := gen_noMap P o T a ta hta
-    have hb := gen_noMap P o T b tb htb
-    unfold genBin at hc
-    split at hc
-    · cases hc; simp [noMap, ha, hb]
-    · split at hc
-      · split at hc
-        · cases hc; simp [noMap, ha, hb]
-        · cases hc
-      · obtain ⟨fn, _, rfl⟩ := userCall_ok hc
-        simp [noMap, noMaps_ofList, ha, hb]
-  | .ife bs, c, h => by
-    simp only [gen] at h
-    obtain ⟨ce, hce, hc⟩ := bind_ok.mp h
-    cases hc
-    have := genBr_noMap P o T bs ce hce
-    exact foldFromLast_noMap ce.1 ce.2 this.1 this.2
-  | .call f args, c, h => by
-    simp only [gen] at h
-    obtain ⟨tas, htas, hc⟩ := bind_ok.mp h
-    obtain ⟨fn, _, rfl⟩ := userCall_ok hc
-    simp [noMap, noMaps_ofList, gens_noMap P o T args tas htas]
-theorem gens_noMap (P : Prims K) (o : Opts) (T : FTab K) : ∀ (es : MExprs K) (cs : List (CTerm K)),
-    gens P o T es = .ok cs → cs.all noMap = true
-  | .nil, cs, h => by simp [gens] at h; subst h; rfl
-  | .cons e es, cs, h => by
-    simp only [gens] at h
-    obtain ⟨t, ht, h2⟩ := bind_ok.mp h
-    obtain ⟨ts, hts, hc⟩ := bind_ok.mp h2
-    cases hc
-    simp [gen_noMap P o T e t ht, gens_noMap P o T es ts hts]
-theorem genBr_noMap (P : Prims K) (o : Opts) (T : FTab K) : ∀ (bs : MBranches K)
-    (ce : List (CTerm K) × List (CTerm K)), genBr P o T bs = .ok ce →
-    ce.1.all noMap = true ∧ ce.2.all noMap = true
-  | .last e, ce, h => by
-    simp only [genBr] at h
-    obtain ⟨t, ht, hc⟩ := bind_ok.mp h
-    cases hc
-    simp [gen_noMap P o T e t ht]
-  | .cons c e rest, ce, h => by
-    simp only [genBr] at h
-    obtain ⟨tc, htc, h2⟩ := bind_ok.mp h
-    obtain ⟨te, hte, h3⟩ := bind_ok.mp h2
-    obtain ⟨ce', hce', hc⟩ := bind_ok.mp h3
-    cases hc
-    have ih := genBr_noMap P o T rest ce' hce'
-    simp [gen_noMap P o T c tc htc, gen_noMap P o T e te hte, ih.1, ih.2]
-end
-
-/-! ## Substitution -/
-
-/-- The environment in which the symbols of `σ` stand for the values of their terms. -/
-def over (P : Prims K) (ρ : Env K) (σ : SymVals K) : Env K :=
-  { ρ with val := fun x => match SymVals.get σ x with
-      | some s => evalC P ρ s
-      | none => ρ.val x }
-
-mutual
-/-- `ca.substitute` on a term is evaluation of the term with the substituted symbols bound to the
-    values of their replacements. -/
-theorem evalC_subst (P : Prims K) (σ : SymVals K) (ρ : Env K)
-    (hsh : ∀ x s, SymVals.get σ x = some s → ρ.shape x = none) :
-    ∀ t : CTerm K, noMap t = true → evalC P ρ (subst σ t) = evalC P (over P ρ σ) t
-  | .const q, _ => by simp [subst, evalC]
-  | .ref n [], _ => by
-    simp only [subst]
-    cases hg : SymVals.get σ n with
-    | none => simp [evalC, Env.lookup, over, hg]
-    | some s => simp [evalC, Env.lookup, over, hg]
-  | .ref n (s :: ss), _ => by
-    simp only [subst, evalC, Env.lookup, over]
-    cases hg : SymVals.get σ n with
-    | none => rfl
-    | some t => simp [hsh n t hg]
-  | .idx i, _ => by simp [subst, evalC, over]
-  | .op1 f a, h => by
-    simp only [noMap] at h
-    simp [subst, evalC, evalC_subst P σ ρ hsh a h]
-  | .op2 f a b, h => by
-    simp only [noMap, Bool.and_eq_true] at h
-    simp [subst, evalC, evalC_subst P σ ρ hsh a h.1, evalC_subst P σ ρ hsh b h.2]
-  | .ifElse c t f, h => by
-    simp only [noMap, Bool.and_eq_true] at h
-    simp [subst, evalC, evalC_subst P σ ρ hsh c h.1.1, evalC_subst P σ ρ hsh t h.1.2,
-      evalC_subst P σ ρ hsh f h.2]
-  | .vcat ts, h => by
-    simp only [noMap] at h
-    simp [subst, evalC, evalCs_substs P σ ρ hsh ts h]
-  | .map _ _ _ _ _, h => by simp [noMap] at h
-  | .call inl fn args, h => by
-    simp only [noMap] at h
-    simp [subst, evalC, evalCs_substs P σ ρ hsh args h]
-theorem evalCs_substs (P : Prims K) (σ : SymVals K) (ρ : Env K)
-    (hsh : ∀ x s, SymVals.get σ x = some s → ρ.shape x = none) :
-    ∀ ts : CTerms K, noMaps ts = true → evalCs P ρ (substs σ ts) = evalCs P (over P ρ σ) ts
-  | .nil, _ => by simp [substs, evalCs]
-  | .cons t ts, h => by
-    simp only [noMaps, Bool.and_eq_true] at h
-    simp [substs, evalCs, evalC_subst P σ ρ hsh t h.1, evalCs_substs P σ ρ hsh ts h.2]
-end
-
-/-! ## Monotonicity of `evalC` in the symbol values -/
-
-/-- `ρ'` knows every symbol `ρ` knows, with the same value. -/
-def Env.le (ρ ρ' : Env K) : Prop :=
-  (∀ x v, ρ.val x = some v → ρ'.val x = some v) ∧ ρ.shape = ρ'.shape ∧ ρ.idx = ρ'.idx
-
-theorem Env.le_bind {ρ ρ' : Env K} (h : Env.le ρ ρ') (i : String) (v : Int) :
-    Env.le (ρ.bind i v) (ρ'.bind i v) := by
-  refine ⟨h.1, h.2.1, ?_⟩
-  simp [Env.bind, h.2.2]
-
-theorem lookup_mono {ρ ρ' : Env K} (h : Env.le ρ ρ') (n : String) (subs : List Sub) :
-    Refines (ρ'.lookup n subs) (ρ.lookup n subs) := by
-  intro v hv
-  cases subs with
-  | nil => simp only [Env.lookup] at hv ⊢; exact h.1 n v hv
-  | cons s ss =>
-    simp only [Env.lookup] at hv ⊢
-    rw [← h.2.1, ← h.2.2]
-    cases hd : ρ.shape n with
-    | none => simp [hd] at hv
-    | some dims =>
-      cases hp : positions ρ.idx dims (s :: ss) with
-      | none => simp [hd, hp] at hv
-      | some ps =>
-        cases hval : ρ.val n with
-        | none => simp [hd, hval] at hv
-        | some vals =>
-          simp [hd, hp, hval] at hv
-          simp [hp, h.1 n vals hval, hv]
-
-mutual
-theorem evalC_mono (P : Prims K) : ∀ (t : CTerm K) (ρ ρ' : Env K), Env.le ρ ρ' →
-    Refines (evalC P ρ' t) (evalC P ρ t)
-  | .const q, ρ, ρ', _ => by simp [evalC]; exact Refines.refl
-  | .ref n s, ρ, ρ', h => by simpa [evalC] using lookup_mono h n s
-  | .idx i, ρ, ρ', h => by simp [evalC, h.2.2]; exact Refines.refl
-  | .op1 f a, ρ, ρ', h => by
-    simp only [evalC]
-    exact Refines.bind (evalC_mono P a ρ ρ' h) (fun _ => Refines.refl)
-  | .op2 f a b, ρ, ρ', h => by
-    simp only [evalC]
-    exact Refines.bind (evalC_mono P a ρ ρ' h)
-      (fun _ => Refines.bind (evalC_mono P b ρ ρ' h) (fun _ => Refines.refl))
-  | .ifElse c t f, ρ, ρ', h => by
-    simp only [evalC]
-    refine Refines.bind (evalC_mono P c ρ ρ' h) (fun _ => Refines.bind_same (fun b => ?_))
-    cases b
-    · simpa using evalC_mono P f ρ ρ' h
-    · simpa using evalC_mono P t ρ ρ' h
-  | .vcat ts, ρ, ρ', h => by
-    simp only [evalC]
-    exact Refines.bind (evalCs_mono P ts ρ ρ' h) (fun _ => Refines.refl)
-  | .map m i vals tr body, ρ, ρ', h => by
-    simp only [evalC]
-    exact Refines.bind (rowsOver_refines _ _ (fun v => evalC_mono P body (ρ.bind i v) (ρ'.bind i v)
-      (Env.le_bind h i v)) vals) (fun _ => Refines.refl)
-  | .call inl fn args, ρ, ρ', h => by
-    simp only [evalC]
-    exact Refines.bind (evalCs_mono P args ρ ρ' h) (fun _ => Refines.refl)
-theorem evalCs_mono (P : Prims K) : ∀ (ts : CTerms K) (ρ ρ' : Env K), Env.le ρ ρ' →
-    Refines (evalCs P ρ' ts) (evalCs P ρ ts)
-  | .nil, ρ, ρ', _ => by simp [evalCs]; exact Refines.refl
-  | .cons t ts, ρ, ρ', h => by
-    simp only [evalCs]
-    exact Refines.bind (evalC_mono P t ρ ρ' h)
-      (fun _ => Refines.bind (evalCs_mono P ts ρ ρ' h) (fun _ => Refines.refl))
-end
-
-end PymocaVerif.Gen
-
-namespace PymocaVerif.Gen
-open PymocaVerif.ExprSem
-
-/-! ## Statements that translate to one symbolic assignment -/
-
-theorem genL_noMap (P : Prims K) (o : Opts) (T : FTab K) : ∀ (es : List (MExpr K)) (ts : List (CTerm K)),
-    genL P o T es = .ok ts → ts.all noMap = true
-  | [], ts, h => by simp [genL] at h; subst h; rfl
-  | e :: es, ts, h => by
-    simp only [genL] at h
-    obtain ⟨t, ht, h2⟩ := bind_ok.mp h
-    obtain ⟨ts', hts, hc⟩ := bind_ok.mp h2
-    cases hc
-    simp [gen_noMap P o T e t ht, genL_noMap P o T es ts' hts]
-
-theorem genL_length (P : Prims K) (o : Opts) (T : FTab K) : ∀ (es : List (MExpr K)) (ts : List (CTerm K)),
-    genL P o T es = .ok ts → ts.length = es.length
-  | [], ts, h => by simp [genL] at h; subst h; rfl
-  | e :: es, ts, h => by
-    simp only [genL] at h
-    obtain ⟨t, _, h2⟩ := bind_ok.mp h
-    obtain ⟨ts', hts, hc⟩ := bind_ok.mp h2
-    cases hc
-    simp [genL_length P o T es ts' hts]
-
-/-- Blocks of a single-target if-statement: every branch is the one assignment `x := eₖ`. -/
-def singleBlocks (x : String) (es : List (MExpr K)) : List (List (String × MExpr K)) :=
-  es.map (fun e => [(x, e)])
-
-theorem genRhsBlocks_single (P : Prims K) (o : Opts) (T : FTab K) (x : String) :
-    ∀ (es : List (MExpr K)) (tbs : List (List (String × CTerm K))),
-    genRhsBlocks P o T (singleBlocks x es) = .ok tbs →
-    ∃ ts, genL P o T es = .ok ts ∧ tbs = ts.map (fun t => [(x, t)])
-  | [], tbs, h => by
-    simp [singleBlocks, genRhsBlocks] at h; subst h
-    exact ⟨[], by simp [genL], rfl⟩
-  | e :: es, tbs, h => by
-    simp only [singleBlocks, List.map_cons, genRhsBlocks] at h
-    obtain ⟨b, hb, h2⟩ := bind_ok.mp h
-    obtain ⟨rest, hrest, hc⟩ := bind_ok.mp h2
-    cases hc
-    simp only [genRhs] at hb
-    obtain ⟨t, ht, h3⟩ := bind_ok.mp hb
-    obtain ⟨r0, hr0, hc'⟩ := bind_ok.mp h3
-    simp at hr0; subst hr0; cases hc'
-    obtain ⟨ts, hts, hrest'⟩ := genRhsBlocks_single P o T x es rest hrest
-    exact ⟨t :: ts, by simp [genL, ht, hts, bind, Except.bind], by simp [hrest']⟩
-
-theorem expandInto_single (x : String) (ts : List (CTerm K)) (t : CTerm K) :
-    expandInto [(x, ts)] x t = [(x, ts ++ [t])] := by
-  simp [expandInto]
-
-theorem foldl_expand_single (x : String) : ∀ (ts acc : List (CTerm K)),
-    (ts.map (fun t => (x, t))).foldl (fun a p => expandInto a p.1 p.2) [(x, acc)] = [(x, acc ++ ts)]
-  | [], acc => by simp
-  | t :: ts, acc => by
-    simp only [List.map_cons, List.foldl_cons, expandInto_single]
-    rw [foldl_expand_single x ts (acc ++ [t])]
-    simp
-
-theorem expandBlocks_single (x : String) (t : CTerm K) (ts : List (CTerm K)) :
-    expandBlocks ((t :: ts).map (fun t => (x, t))) = [(x, t :: ts)] := by
-  simp only [expandBlocks, List.map_cons, List.foldl_cons, expandInto]
-  simpa using foldl_expand_single x ts [t]
-
-theorem mergeIf_eq_foldFromLast (tcs ts : List (CTerm K)) : mergeIf tcs ts = foldFromLast tcs ts := rfl
-
-/-- One statement, one symbolic assignment: target, right-hand term, and what it has to compute. -/
-structure StmtOK (P : Prims K) (F : FSem K) (s : Stmt K) (x : String) (t : CTerm K) : Prop where
-  nomap : noMap t = true
-  sem : ∀ σ : Store K, Refines ((evalC P (storeEnv σ (fun _ => none)) t).map (fun v => (x, v) :: σ))
-      (execStmt P F σ s)
-
-theorem nestAll_refines_execIf (P : Prims K) (o : Opts) (T : FTab K) (F : FSem K) (hT : TabOK P T F)
-    (hS : NoShadow T) (x : String) (σ : Store K) : ∀ (cs es : List (MExpr K)) (tcs ts : List (CTerm K)),
-    genL P o T cs = .ok tcs → genL P o T es = .ok ts →
-    Refines ((evalC P (storeEnv σ (fun _ => none)) (nestAll tcs ts)).map (fun v => (x, v) :: σ))
-      (execIf P F cs (singleBlocks x es) σ)
-  | [], [], tcs, ts, _, _ => by intro v hv; simp [singleBlocks, execIf] at hv
-  | [], [e], tcs, ts, hc, he => by
-    simp [genL] at hc; subst hc
-    simp only [genL] at he
-    obtain ⟨t, ht, h2⟩ := bind_ok.mp he
-    obtain ⟨r0, hr0, hc'⟩ := bind_ok.mp h2
-    simp at hr0; subst hr0; cases hc'
-    intro v hv
-    simp only [singleBlocks, List.map_cons, List.map_nil, execIf, execAssigns] at hv
-    cases hv1 : evalM P F (storeEnv σ fun _ => none) e with
-    | none => simp [hv1] at hv
-    | some v1 =>
-      simp [hv1] at hv
-      have := gen_refines P o T F hT hS e t ht (storeEnv σ fun _ => none) v1 hv1
-      simp [nestAll, this, hv]
-  | [], _ :: _ :: _, tcs, ts, _, _ => by intro v hv; simp [singleBlocks, execIf] at hv
-  | _ :: _, [], tcs, ts, _, _ => by intro v hv; simp [singleBlocks, execIf] at hv
-  | c :: cs, e :: es, tcs, ts, hc, he => by
-    simp only [genL] at hc he
-    obtain ⟨tc, htc, h2⟩ := bind_ok.mp hc
-    obtain ⟨tcs', htcs', hc'⟩ := bind_ok.mp h2
-    cases hc'
-    obtain ⟨te, hte, h3⟩ := bind_ok.mp he
-    obtain ⟨ts', hts', he'⟩ := bind_ok.mp h3
-    cases he'
-    have ih := nestAll_refines_execIf P o T F hT hS x σ cs es tcs' ts' htcs' hts'
-    intro v hv
-    simp only [singleBlocks, List.map_cons, execIf] at hv
-    cases hvc : evalM P F (storeEnv σ fun _ => none) c with
-    | none => simp [hvc] at hv
-    | some vc =>
-      have hc1 := gen_refines P o T F hT hS c tc htc (storeEnv σ fun _ => none) vc hvc
-      cases hb : condOf P vc with
-      | none => simp [hvc, hb] at hv
-      | some b =>
-        simp only [hvc, hb, Option.bind_eq_bind, Option.bind_some] at hv
-        cases b
-        · simp only [Bool.false_eq_true, if_false] at hv
-          have := ih v (by simpa [singleBlocks] using hv)
-          simpa [nestAll, evalC, hc1, hb] using this
-        · simp only [if_true, execAssigns] at hv
-          cases hv1 : evalM P F (storeEnv σ fun _ => none) e with
-          | none => simp [hv1] at hv
-          | some v1 =>
-            simp [hv1] at hv
-            have := gen_refines P o T F hT hS e te hte (storeEnv σ fun _ => none) v1 hv1
-            simp [nestAll, evalC, hc1, hb, this, hv]
-
-/-- The statements covered by the function theorem: plain assignments and if-statements whose
-    branches each assign the same single variable. -/
-inductive SafeStmt : Stmt K → Prop
-  | assign (x : String) (e : MExpr K) : SafeStmt (.assign x e)
-  | ifs (cs : List (MExpr K)) (x : String) (es : List (MExpr K)) (h : es.length = cs.length + 1) :
-      SafeStmt (.ifs cs (singleBlocks x es))
-
-theorem flatten_map_single (f : α → β) : ∀ l : List α, (l.map (fun t => [f t])).flatten = l.map f
-  | [] => rfl
-  | a :: l => by simp [flatten_map_single f l]
-
-theorem sameLengths_single (x : String) (es : List (MExpr K)) : sameLengths (singleBlocks x es) = true := by
-  cases es with
-  | nil => rfl
-  | cons e es => simp [singleBlocks, sameLengths]
-
-theorem genStmt_safe (P : Prims K) (o : Opts) (T : FTab K) (F : FSem K) (hT : TabOK P T F)
-    (hS : NoShadow T) (s : Stmt K) (hs : SafeStmt s) (as : List (String × CTerm K))
-    (h : genStmt P o T s = .ok as) : ∃ x t, as = [(x, t)] ∧ StmtOK P F s x t := by
-  cases hs with
-  | assign x e =>
-    simp only [genStmt] at h
-    obtain ⟨t, ht, hc⟩ := bind_ok.mp h
-    cases hc
-    refine ⟨x, t, rfl, gen_noMap P o T e t ht, fun σ => ?_⟩
-    simp only [execStmt, execAssigns]
-    intro v hv
-    cases hv1 : evalM P F (storeEnv σ fun _ => none) e with
-    | none => simp [hv1] at hv
-    | some v1 =>
-      simp [hv1] at hv
-      simp [gen_refines P o T F hT hS e t ht (storeEnv σ fun _ => none) v1 hv1, hv]
-  | ifs cs x es hlen =>
-    simp only [genStmt] at h
-    obtain ⟨tcs, htcs, h2⟩ := bind_ok.mp h
-    obtain ⟨tbs, htbs, h3⟩ := bind_ok.mp h2
-    obtain ⟨ts, hts, rfl⟩ := genRhsBlocks_single P o T x es tbs htbs
-    have hl : ts.length = es.length := genL_length P o T es ts hts
-    have hlc : tcs.length = cs.length := genL_length P o T cs tcs htcs
-    cases ts with
-    | nil => simp at hl; omega
-    | cons t0 ts' =>
-      have hflat : ((t0 :: ts').map (fun t => [(x, t)])).flatten = (t0 :: ts').map (fun t => (x, t)) :=
-        flatten_map_single (fun t => (x, t)) (t0 :: ts')
-      simp only [sameLengths_single, Bool.not_true, Bool.false_eq_true, if_false, hflat,
-        expandBlocks_single] at h3
-      simp only [List.map_cons, List.map_nil, sameLengths, List.all_nil, Bool.not_true,
-        Bool.false_eq_true, if_false, Except.ok.injEq] at h3
-      subst h3
-      have hnest : mergeIf tcs (t0 :: ts') = nestAll tcs (t0 :: ts') := by
-        rw [mergeIf_eq_foldFromLast, foldFromLast_eq_nestAll]
-        simp at hl ⊢; omega
-      refine ⟨x, mergeIf tcs (t0 :: ts'), rfl, ?_, fun σ => ?_⟩
-      · rw [mergeIf_eq_foldFromLast]
-        exact foldFromLast_noMap _ _ (genL_noMap P o T cs tcs htcs) (genL_noMap P o T es _ hts)
-      · rw [hnest]
-        simpa [execStmt] using nestAll_refines_execIf P o T F hT hS x σ cs es tcs (t0 :: ts') htcs hts
-
-end PymocaVerif.Gen
-
-namespace PymocaVerif.Gen
-open PymocaVerif.ExprSem
-
-/-! ## Whole functions -/
 
 theorem get_cons (x y : String) (s : CTerm K) (σ : SymVals K) :
     SymVals.get ((x, s) :: σ) y = if x = y then some s else SymVals.get σ y := by
@@ -451,42 +18,26 @@ theorem store_get_cons (x y : String) (v : List K) (σ : Store K) :
     Store.get ((x, v) :: σ) y = if x = y then some v else Store.get σ y := by
   simp [Store.get]
 
-mutual
-theorem subst_noMap (σ : SymVals K) (hσ : ∀ x s, SymVals.get σ x = some s → noMap s = true) :
-    ∀ t : CTerm K, noMap t = true → noMap (subst σ t) = true
-  | .const q, _ => by simp [subst, noMap]
-  | .ref n [], _ => by
-    simp only [subst]
-    cases hg : SymVals.get σ n with
-    | none => simp [noMap]
-    | some s => simpa using hσ n s hg
-  | .ref n (s :: ss), _ => by simp [subst, noMap]
-  | .idx i, _ => by simp [subst, noMap]
-  | .op1 f a, h => by simp only [noMap] at h; simp [subst, noMap, subst_noMap σ hσ a h]
-  | .op2 f a b, h => by
-    simp only [noMap, Bool.and_eq_true] at h
-    simp [subst, noMap, subst_noMap σ hσ a h.1, subst_noMap σ hσ b h.2]
-  | .ifElse c t f, h => by
-    simp only [noMap, Bool.and_eq_true] at h
-    simp [subst, noMap, subst_noMap σ hσ c h.1.1, subst_noMap σ hσ t h.1.2, subst_noMap σ hσ f h.2]
-  | .vcat ts, h => by simp only [noMap] at h; simp [subst, noMap, substs_noMap σ hσ ts h]
-  | .map _ _ _ _ _, h => by simp [noMap] at h
-  | .call inl fn args, h => by simp only [noMap] at h; simp [subst, noMap, substs_noMap σ hσ args h]
-theorem substs_noMap (σ : SymVals K) (hσ : ∀ x s, SymVals.get σ x = some s → noMap s = true) :
-    ∀ ts : CTerms K, noMaps ts = true → noMaps (substs σ ts) = true
-  | .nil, _ => by simp [substs, noMaps]
-  | .cons t ts, h => by
-    simp only [noMaps, Bool.and_eq_true] at h
-    simp [substs, noMaps, subst_noMap σ hσ t h.1, substs_noMap σ hσ ts h.2]
-end
+/-- Evaluate raw assignments one after the other directly on a store. -/
+def runRaw (P : Prims K) : List (String × CTerm K) → Store K → Option (Store K)
+  | [], σ => some σ
+  | (x, t) :: rest, σ => do
+    let v ← evalC P (storeEnv σ (fun _ => none)) t
+    runRaw P rest ((x, v) :: σ)
+
+theorem runRaw_append (P : Prims K) : ∀ (a b : List (String × CTerm K)) (σ : Store K),
+    runRaw P (a ++ b) σ = (runRaw P a σ >>= runRaw P b)
+  | [], b, σ => by simp [runRaw]
+  | (x, t) :: rest, b, σ => by
+    simp only [List.cons_append, runRaw]
+    cases evalC P (storeEnv σ fun _ => none) t with
+    | none => simp
+    | some v => simpa using runRaw_append P rest b ((x, v) :: σ)
 
 /-- The symbolic values describe the store: every variable's term evaluates (over the inputs) to what
-    the store holds, and unassigned variables are unassigned on both sides. -/
+    the store holds, unassigned variables are unassigned on both sides, and all terms are closed. -/
 def Inv (P : Prims K) (ρin : Env K) (vals : SymVals K) (σ : Store K) : Prop :=
-  (∀ x, (over P ρin vals).val x = Store.get σ x) ∧ (∀ x s, SymVals.get vals x = some s → noMap s = true)
-
-def SafeFunc (f : MFunc K) : Prop :=
-  (∀ s ∈ f.body, SafeStmt s) ∧ (∀ x ∈ f.locals, x ∉ f.inputs)
+  (∀ x, (over P ρin vals).val x = Store.get σ x) ∧ ValsClosed vals
 
 theorem over_eq_storeEnv (P : Prims K) (ρin : Env K) (vals : SymVals K) (σ : Store K)
     (hsh : ρin.shape = fun _ => none) (hix : ρin.idx = fun _ => none)
@@ -497,187 +48,151 @@ theorem over_eq_storeEnv (P : Prims K) (ρin : Env K) (vals : SymVals K) (σ : S
   simp only [storeEnv]
   rw [hv, hsh, hix]
 
-theorem genStmts_inv (P : Prims K) (o : Opts) (T : FTab K) (F : FSem K) (hT : TabOK P T F)
-    (hS : NoShadow T) (ρin : Env K) (hsh : ρin.shape = fun _ => none) (hix : ρin.idx = fun _ => none) :
-    ∀ (body : List (Stmt K)), (∀ s ∈ body, SafeStmt s) → ∀ (vals vals' : SymVals K) (σ σ' : Store K),
-    genStmts P o T body vals = .ok vals' → execBody P F body σ = some σ' →
-    Inv P ρin vals σ → Inv P ρin vals' σ'
-  | [], _, vals, vals', σ, σ', hg, he, hinv => by
-    simp [genStmts] at hg; simp [execBody] at he; subst hg; subst he; exact hinv
-  | s :: ss, hs, vals, vals', σ, σ', hg, he, hinv => by
-    simp only [genStmts] at hg
-    obtain ⟨as, has, hg2⟩ := bind_ok.mp hg
-    obtain ⟨x, t, rfl, hok⟩ := genStmt_safe P o T F hT hS s (hs s (by simp)) as has
-    simp only [execBody] at he
-    cases he1 : execStmt P F σ s with
-    | none => simp [he1] at he
-    | some σ1 =>
-      simp [he1] at he
-      have hsem := hok.sem σ σ1 he1
-      cases hv : evalC P (storeEnv σ fun _ => none) t with
-      | none => simp [hv] at hsem
-      | some v =>
-        simp [hv] at hsem
-        have henv := over_eq_storeEnv P ρin vals σ hsh hix hinv.1
-        have hsub : evalC P ρin (subst vals t) = some v := by
-          rw [evalC_subst P vals ρin (fun y s _ => by simp [hsh]) t hok.nomap, henv, hv]
-        have hinv1 : Inv P ρin (applyAssigns vals [(x, t)]) σ1 := by
-          subst hsem
-          refine ⟨fun y => ?_, fun y s hy => ?_⟩
-          · simp only [applyAssigns, over, get_cons, store_get_cons]
-            by_cases hxy : x = y
-            · simp [hxy, ← hsub]
-            · simp only [hxy, if_false]
-              have := hinv.1 y
-              simpa [over] using this
-          · simp only [applyAssigns, get_cons] at hy
-            by_cases hxy : x = y
-            · simp [hxy] at hy; subst hy
-              exact subst_noMap vals hinv.2 t hok.nomap
-            · simp [hxy] at hy; exact hinv.2 y s hy
-        exact genStmts_inv P o T F hT hS ρin hsh hix ss (fun s' hs' => hs s' (by simp [hs']))
-          _ vals' σ1 σ' hg2 he hinv1
+/-- Sequential substitution follows sequential evaluation. -/
+theorem applyAssigns_inv (P : Prims K) (ρin : Env K) (hsh : ρin.shape = fun _ => none)
+    (hix : ρin.idx = fun _ => none) : ∀ (as : List (String × CTerm K)) (vals : SymVals K) (σ σ' : Store K),
+    (∀ p ∈ as, idxClosed [] p.2 = true) → runRaw P as σ = some σ' → Inv P ρin vals σ →
+    Inv P ρin (applyAssigns vals as) σ'
+  | [], vals, σ, σ', _, hr, hinv => by simp [runRaw] at hr; subst hr; exact hinv
+  | (x, t) :: rest, vals, σ, σ', hcl, hr, hinv => by
+    simp only [runRaw] at hr
+    cases hv : evalC P (storeEnv σ fun _ => none) t with
+    | none => simp [hv] at hr
+    | some v =>
+      simp only [hv, Option.bind_eq_bind, Option.bind_some] at hr
+      have henv := over_eq_storeEnv P ρin vals σ hsh hix hinv.1
+      have ht : idxClosed [] t = true := hcl (x, t) (by simp)
+      have hsub : evalC P ρin (subst vals t) = some v := by
+        rw [evalC_subst P vals hinv.2 t ρin (fun y s _ => by simp [hsh]), henv, hv]
+      have hinv1 : Inv P ρin ((x, subst vals t) :: vals) ((x, v) :: σ) := by
+        refine ⟨fun y => ?_, fun y s hy => ?_⟩
+        · simp only [over, get_cons, store_get_cons]
+          by_cases hxy : x = y
+          · simp [hxy, ← hsub]
+          · simp only [hxy, if_false]
+            have := hinv.1 y
+            simpa [over] using this
+        · simp only [get_cons] at hy
+          by_cases hxy : x = y
+          · simp [hxy] at hy; subst hy
+            exact subst_closed vals hinv.2 t [] ht
+          · simp [hxy] at hy; exact hinv.2 y s hy
+      exact applyAssigns_inv P ρin hsh hix rest _ _ σ' (fun p hp => hcl p (by simp [hp])) hr hinv1
 
-theorem get_init (inputs : List String) (y : String) :
-    SymVals.get (inputs.map (fun x => (x, (CTerm.ref x [] : CTerm K)))) y =
-      if y ∈ inputs then some (.ref y []) else none := by
-  induction inputs with
-  | nil => simp [SymVals.get]
-  | cons a rest ih =>
-    simp only [List.map_cons, SymVals.get, ih, List.mem_cons]
-    by_cases h : a = y
-    · subst h; simp
-    · have h' : ¬ y = a := fun e => h e.symm
-      simp [h, h']
+/-- What a statement's raw assignments have to satisfy. -/
+structure StmtSpec (P : Prims K) (F : FSem K) (s : Stmt K) (as : List (String × CTerm K)) : Prop where
+  closed : ∀ p ∈ as, idxClosed [] p.2 = true
+  sem : ∀ σ : Store K, Refines (runRaw P as σ) (execStmt P F σ s)
 
-theorem store_get_mem : ∀ (xs : List String) (vs : List (List K)) (y : String) (v : List K),
-    Store.get (xs.zip vs) y = some v → y ∈ xs
-  | [], vs, y, v, h => by simp [Store.get] at h
-  | x :: xs, [], y, v, h => by simp [Store.get] at h
-  | x :: xs, w :: vs, y, v, h => by
-    simp only [List.zip_cons_cons, Store.get] at h
-    by_cases hxy : x = y
-    · simp [hxy]
-    · simp only [hxy, if_false] at h
-      simp [store_get_mem xs vs y v h]
+/-! ## Assignment -/
 
-theorem lookupAll_cons_ok {vals : SymVals K} {x : String} {xs : List String}
-    {ps : List (String × CTerm K)} (h : lookupAll vals (x :: xs) = .ok ps) :
-    ∃ t rest, SymVals.get vals x = some t ∧ lookupAll vals xs = .ok rest ∧ ps = (x, t) :: rest := by
-  simp only [lookupAll] at h
-  cases hg : SymVals.get vals x with
-  | none => simp [hg] at h
-  | some t =>
-    simp only [hg] at h
-    obtain ⟨rest, hrest, hc⟩ := bind_ok.mp h
-    cases hc
-    exact ⟨t, rest, rfl, hrest, rfl⟩
-
-theorem lookupAll_spec (vals : SymVals K) : ∀ (xs : List String) (ps : List (String × CTerm K)),
-    lookupAll vals xs = .ok ps →
-    ps.map (·.1) = xs ∧ ∀ p ∈ ps, SymVals.get vals p.1 = some p.2
-  | [], ps, h => by simp [lookupAll] at h; subst h; simp
-  | x :: xs, ps, h => by
-    obtain ⟨t, rest, hget, hrest, rfl⟩ := lookupAll_cons_ok h
-    have ih := lookupAll_spec vals xs rest hrest
-    refine ⟨by simp [ih.1], ?_⟩
-    intro p hp
-    simp only [List.mem_cons] at hp
-    cases hp with
-    | inl h1 => subst h1; exact hget
-    | inr h1 => exact ih.2 p h1
-
-theorem get_of_lookupAll (vals : SymVals K) (xs : List String) (ps : List (String × CTerm K))
-    (h : lookupAll vals xs = .ok ps) (y : String) (s : CTerm K) (hy : SymVals.get ps y = some s) :
-    y ∈ xs := by
-  have hk := (lookupAll_spec vals xs ps h).1
-  have : y ∈ ps.map (·.1) := by
-    clear hk h
-    induction ps with
-    | nil => simp [SymVals.get] at hy
-    | cons p rest ih =>
-      simp only [SymVals.get] at hy
-      by_cases hp : p.1 = y
-      · simp [hp]
-      · simp only [hp, if_false] at hy
-        simp [ih hy]
-  rwa [hk] at this
-
-/-- `get_function`: the translated function computes what running the algorithm section computes,
-    for bodies made of assignments and single-target if-statements. -/
-theorem genFunc_refines (P : Prims K) (o : Opts) (T : FTab K) (F : FSem K) (hT : TabOK P T F)
-    (hS : NoShadow T) (f : MFunc K) (hf : SafeFunc f) (fn : CFunc K) (h : genFunc P o T f = .ok fn)
-    (vs : List (List K)) : Refines (evalCF P fn vs) (funcSem P F f vs) := by
-  unfold genFunc at h
-  obtain ⟨vals, hvals, h2⟩ := bind_ok.mp h
-  obtain ⟨outs, houts, h3⟩ := bind_ok.mp h2
-  obtain ⟨tmps, htmps, hc⟩ := bind_ok.mp h3
+theorem genStmt_assign (P : Prims K) (o : Opts) (T : FTab K) (F : FSem K) (hT : TabOK P T F)
+    (hS : NoShadow T) (x : String) (e : MExpr K) (he : mClosed [] e = true) (as : List (String × CTerm K))
+    (h : genStmt P o T (.assign x e) = .ok as) : StmtSpec P F (.assign x e) as := by
+  simp only [genStmt] at h
+  obtain ⟨t, ht, hc⟩ := bind_ok.mp h
   cases hc
-  intro r hr
-  unfold funcSem at hr
-  split at hr
-  · rename_i hlen
-    cases hσ : execBody P F f.body (f.inputs.zip vs) with
-    | none => simp [hσ] at hr
-    | some σ =>
-      cases hov : getAll σ f.outputs with
-      | none => simp [hσ, hov] at hr
-      | some ovs =>
-        simp [hσ, hov] at hr
-        let ρin : Env K := funcEnv f.inputs vs
-        have hsh : ρin.shape = fun _ => none := rfl
-        have hix : ρin.idx = fun _ => none := rfl
-        have hinit : Inv P ρin (f.inputs.map (fun x => (x, .ref x []))) (f.inputs.zip vs) := by
-          refine ⟨fun y => ?_, fun y s hy => ?_⟩
-          · simp only [over, get_init]
-            by_cases hy : y ∈ f.inputs
-            · simp [hy, evalC, Env.lookup, ρin, funcEnv, storeEnv]
-            · simp [hy, ρin, funcEnv, storeEnv]
-          · rw [get_init] at hy
-            split at hy
-            · cases hy; rfl
-            · cases hy
-        have hinv := genStmts_inv P o T F hT hS ρin hsh hix f.body hf.1 _ vals _ σ hvals hσ hinit
-        -- the outputs, one by one
-        have hle : Env.le ρin (over P ρin tmps) := by
-          refine ⟨fun x v hx => ?_, rfl, rfl⟩
-          simp only [over]
-          cases hg : SymVals.get tmps x with
-          | none => exact hx
-          | some s =>
-            have hloc := get_of_lookupAll vals f.locals tmps htmps x s hg
-            have hin : x ∈ f.inputs := store_get_mem f.inputs vs x v (by simpa [ρin, funcEnv, storeEnv] using hx)
-            exact absurd hin (hf.2 x hloc)
-        have key : ∀ (xs : List String) (ps : List (String × CTerm K)) (ws : List (List K)),
-            lookupAll vals xs = .ok ps → getAll σ xs = some ws →
-            evalCL P ρin (ps.map fun p => subst tmps p.2) = some ws := by
-          intro xs
-          induction xs with
-          | nil =>
-            intro ps ws hp hw
-            simp [lookupAll] at hp; simp [getAll] at hw; subst hp; subst hw; simp [evalCL]
-          | cons x xs ih =>
-            intro ps ws hp hw
-            obtain ⟨t, rest, hget, hrest, rfl⟩ := lookupAll_cons_ok hp
-            simp only [getAll] at hw
-            cases hw1 : Store.get σ x with
-            | none => simp [hw1] at hw
-            | some w =>
-              cases hw2 : getAll σ xs with
-              | none => simp [hw1, hw2] at hw
-              | some ws' =>
-                simp [hw1, hw2] at hw; subst hw
-                have hval : evalC P ρin t = some w := by
-                  have := hinv.1 x
-                  simpa [over, hget, hw1] using this
-                have hnm : noMap t = true := hinv.2 x t hget
-                have hsub : evalC P ρin (subst tmps t) = some w := by
-                  rw [evalC_subst P tmps ρin (fun y s _ => by simp [hsh]) t hnm]
-                  exact evalC_mono P t ρin (over P ρin tmps) hle w hval
-                simp [evalCL, hsub, ih rest ws' hrest hw2]
-        have := key f.outputs outs ovs houts hov
-        simp [evalCF, hlen, evalCs_ofList, ρin] at this ⊢
-        simp [this, hr]
-  · cases hr
+  refine ⟨fun p hp => ?_, fun σ => ?_⟩
+  · simp only [List.mem_singleton] at hp; subst hp
+    exact gen_closed P o T [] e t he ht
+  · simp only [execStmt, execAssigns, runRaw]
+    intro v hv
+    cases hv1 : evalM P F (storeEnv σ fun _ => none) e with
+    | none => simp [hv1] at hv
+    | some v1 =>
+      simp [hv1] at hv
+      simp [gen_refines P o T F hT hS e t ht (storeEnv σ fun _ => none) v1 hv1, hv]
+
+/-! ## For-statement -/
+
+/-- `rhs` is the entry-wise translation of `body`. -/
+inductive RhsOK (P : Prims K) (o : Opts) (T : FTab K) : List (String × MExpr K) → List (String × CTerm K) → Prop
+  | nil : RhsOK P o T [] []
+  | cons {b : String × MExpr K} {r : String × CTerm K} {body : List (String × MExpr K)}
+      {rhs : List (String × CTerm K)} (h : r.1 = b.1 ∧ gen P o T b.2 = .ok r.2) (rest : RhsOK P o T body rhs) :
+      RhsOK P o T (b :: body) (r :: rhs)
+
+theorem genRhs_spec (P : Prims K) (o : Opts) (T : FTab K) : ∀ (body : List (String × MExpr K))
+    (rhs : List (String × CTerm K)), genRhs P o T body = .ok rhs →
+    RhsOK P o T body rhs
+  | [], rhs, h => by simp [genRhs] at h; subst h; exact .nil
+  | (x, e) :: rest, rhs, h => by
+    simp only [genRhs] at h
+    obtain ⟨t, ht, h2⟩ := bind_ok.mp h
+    obtain ⟨ts, hts, hc⟩ := bind_ok.mp h2
+    cases hc
+    exact .cons ⟨rfl, ht⟩ (genRhs_spec P o T rest ts hts)
+
+theorem bind_storeEnv (σ : Store K) (i : String) (v : Int) :
+    (storeEnv σ (fun _ => none)).bind i v = storeEnv σ (fun x => if x = i then some v else none) := rfl
+
+/-- One iteration: the `mapAt` entries of the body evaluate like the body's assignments. -/
+theorem iteration_refines (P : Prims K) (o : Opts) (T : FTab K) (F : FSem K) (hT : TabOK P T F)
+    (hS : NoShadow T) (m : MapMode) (i : String) (v : Int) : ∀ (body : List (String × MExpr K))
+    (rhs : List (String × CTerm K)),
+    RhsOK P o T body rhs →
+    ∀ σ : Store K, Refines (runRaw P (rhs.map fun p => (p.1, .mapAt m i v p.2)) σ)
+      (execAssigns P F (fun x => if x = i then some v else none) body σ)
+  | [], _, .nil, σ => by simp [runRaw, execAssigns]; exact Refines.refl
+  | (x, e) :: rest, (y, t) :: rhs, .cons hxy hrest, σ => by
+    obtain ⟨hy, ht⟩ := hxy
+    simp only at hy ht
+    subst hy
+    simp only [List.map_cons, runRaw, execAssigns, evalC, bind_storeEnv]
+    exact Refines.bind (gen_refines P o T F hT hS e t ht _)
+      (fun w => iteration_refines P o T F hT hS m i v rest rhs hrest ((y, w) :: σ))
+
+theorem for_refines (P : Prims K) (o : Opts) (T : FTab K) (F : FSem K) (hT : TabOK P T F)
+    (hS : NoShadow T) (m : MapMode) (i : String) (body : List (String × MExpr K))
+    (rhs : List (String × CTerm K))
+    (hr : RhsOK P o T body rhs) :
+    ∀ (vals : List Int) (σ : Store K),
+    Refines (runRaw P (vals.flatMap fun v => rhs.map fun p => (p.1, .mapAt m i v p.2)) σ)
+      (execFor P F i body vals σ)
+  | [], σ => by simp [runRaw, execFor]; exact Refines.refl
+  | v :: vs, σ => by
+    simp only [List.flatMap_cons, runRaw_append, execFor]
+    exact Refines.bind (iteration_refines P o T F hT hS m i v body rhs hr σ)
+      (fun σ' => for_refines P o T F hT hS m i body rhs hr vs σ')
+
+theorem genStmt_for (P : Prims K) (o : Opts) (T : FTab K) (F : FSem K) (hT : TabOK P T F)
+    (hS : NoShadow T) (i : String) (start : Int) (stop : IdxE) (step : Int) (body : List (String × MExpr K))
+    (hb : ∀ b ∈ body, mClosed [i] b.2 = true) (as : List (String × CTerm K))
+    (h : genStmt P o T (.for i start stop step body) = .ok as) :
+    StmtSpec P F (.for i start stop step body) as := by
+  simp only [genStmt] at h
+  cases hstop : stop.eval (fun _ => none) with
+  | none => simp [hstop, bind, Except.bind] at h
+  | some hi =>
+    simp only [hstop, pure, Except.pure, bind, Except.bind] at h
+    split at h
+    · cases h
+    · cases hrhs : genRhs P o T body with
+      | error e => simp [hrhs] at h
+      | ok rhs =>
+        simp only [hrhs, Except.ok.injEq] at h
+        subst h
+        have hr := genRhs_spec P o T body rhs hrhs
+        refine ⟨fun p hp => ?_, fun σ => ?_⟩
+        · simp only [List.mem_flatMap, List.mem_map] at hp
+          obtain ⟨v, _, q, hq, rfl⟩ := hp
+          simp only [idxClosed]
+          -- q comes from some body entry with the same name and a closed expression
+          have : ∀ (body : List (String × MExpr K)) (rhs : List (String × CTerm K)),
+              RhsOK P o T body rhs →
+              (∀ b ∈ body, mClosed [i] b.2 = true) → ∀ q ∈ rhs, idxClosed [i] q.2 = true := by
+            intro body rhs hf
+            induction hf with
+            | nil => intro _ q hq; simp at hq
+            | cons hab _ ih =>
+              intro hb q hq
+              simp only [List.mem_cons] at hq
+              cases hq with
+              | inl h1 => subst h1; exact gen_closed P o T [i] _ _ (hb _ (by simp)) hab.2
+              | inr h1 => exact ih (fun b hb' => hb b (by simp [hb'])) q h1
+          exact this body rhs hr hb q hq
+        · simp only [execStmt, hstop, Option.bind_eq_bind, Option.bind_some]
+          rw [← arangeCode_eq]
+          exact for_refines P o T F hT hS o.mapMode i body rhs hr (arangeCode start step hi) σ
 
 end PymocaVerif.Gen
